@@ -156,6 +156,33 @@ class Table:
     def describe(self):
         return "ndim=%d orders=%s nknots=%s" % (self.ndim, self.orders, self.nknots)
 
+def add_history_twins(rng, cases, every=7):
+    """call histories: after every `every`-th table a TWIN follows in the same harness process — the same shape, orders and coefficients,
+    one knot of one dimension moved (so the knot arrays of the dead table and of its successor have equal sizes and, with the usual
+    allocators, equal addresses) — and is asked the same queries in reverse order, so that its first query is bitwise the last one of
+    its predecessor. Whatever the library remembers between calls (per thread, per address, per argument) must not leak from one
+    table into the next."""
+    out = []
+    for ti, (t, qs) in enumerate(cases):
+        out.append((t, qs))
+        if ti % every != every - 1 or not qs or len(t.coefs) > 20000:
+            continue
+        cand = [(d, i) for d in range(t.ndim) for i in range(1, t.nknots[d] - 1) if t.knots[d][i - 1] < t.knots[d][i + 1]]
+        if not cand:
+            continue
+        knots = [list(k) for k in t.knots]
+        for d, i in [rng.choice(cand) for _ in range(rng.rint(1, 2))]:
+            lo, hi = knots[d][i - 1], knots[d][i + 1]
+            new = lo + (hi - lo) * rng.choice([0.25, 0.5, 0.75, 0.0, 1.0])
+            if lo <= new <= hi:
+                knots[d][i] = new
+        if knots == [list(k) for k in t.knots]:
+            continue
+        t2 = Table(list(t.orders), knots, list(t.coefs), t.pad)
+        t2.follows_previous = True
+        out.append((t2, list(reversed(qs))))
+    return out
+
 def gen_table(rng, ndim=None, max_coefs=60000, pattern=None, knot_style=None, coef_style=None, scale_range=(-2, 2), maxextra=7):
     if ndim is None:
         ndim = rng.choice([1, 1, 2, 2, 3, 3, 4, 5, 6, 7, 8, 9])
@@ -473,8 +500,10 @@ class EvalCheck:
         meta, nq = {}, 0
         shard_lines = [[] for _ in range(self.SHARDS)]
         shard_q = [0] * self.SHARDS
+        prev_shard = 0
         for ti, (t, qs) in enumerate(cases):
-            s = ti % self.SHARDS
+            s = prev_shard if (ti and getattr(t, "follows_previous", False)) else ti % self.SHARDS
+            prev_shard = s
             shard_lines[s] += t.lines()
             for qi, q in enumerate(qs):
                 qid = "%s_t%dq%d" % (tag, ti, qi)
